@@ -1590,6 +1590,30 @@ pub fn run(cx: &mut Ctx) {
             report(cx, &sess, problems);
         }
     }
+    // isolation under load: other keys (another endpoint, another path, another method) hold unfinished
+    // uploads of 17 KiB and more in total – this key's upload and download run as if they were alone
+    for (i, shape) in shapes.iter().take(2).enumerate() {
+        for &(other_ep, n_blocks, n_keys) in &[(2u8, 17usize, 1usize), (1, 6, 4), (2, 9, 2)] {
+            let mut sess = Session::new(1152, 60000);
+            for k in 0..n_keys {
+                let other = ReqShape { code: 2, path: vec![format!("bulk{}", k).into_bytes()], tok: vec![0x70 + k as u8], ..shape.clone() };
+                for b in 0..n_blocks {
+                    sess.step(Op::Req(other_ep, other.spec((k * 100 + b) as u16, Some(bv_bytes(b, true, 6)), None, &vec![0x5A; 1024])));
+                }
+            }
+            let post = ReqShape { code: 2, ..shape.clone() };
+            let szx = [6u8, 2][i % 2];
+            run_upload(cx, &Upload { shape: &post, ep: 1, m: 1152, body: body_of(&mut rng, 3 * (16usize << szx) + 5), szx, dups: vec![1], abandoned: None, dup_final: 0, fresh_tokens: false }, &mut sess);
+            let mut sess2 = Session::new(1152, 60000);
+            for k in 0..n_keys {
+                let other = ReqShape { code: 2, path: vec![format!("bulk{}", k).into_bytes()], tok: vec![0x70 + k as u8], ..shape.clone() };
+                for b in 0..n_blocks {
+                    sess2.step(Op::Req(other_ep, other.spec((k * 100 + b) as u16, Some(bv_bytes(b, true, 6)), None, &vec![0x5A; 1024])));
+                }
+            }
+            run_download(cx, &Download { shape, ep: 1, m: 1152, body: body_of(&mut rng, 2500), resp_opts: vec![], first_szx: Some(4), reduce_at: None, followup_toks: vec![] }, &mut sess2, true);
+        }
+    }
     // an upload onto a key that still holds a cached response (the client did not fetch the rest of an
     // earlier fragmented reply to the same method and path), the upload's requests carrying a Block2 option
     // too (early negotiation of the response size): the upload rules apply unchanged – 2.31 + Block1 echo for
